@@ -60,9 +60,9 @@ let run_build () =
   | 6 -> let o = read_opt read_tok in let c = read_opt read_tok in let p = read_opt read_n in
          out_opt out_change (FixBuilders.spread_change o c p)
   | 7 -> let s = read_n () in let e = read_n () in out_change (FixBuilders.rename_change s e)
-  | 8 -> let cjs = read_bool () in let l = read_opt read_n in let c = read_n () in
+  | 8 -> let cjs = read_bool () in let l = read_opt (fun () -> let p = read_n () in let i = read_bool () in (p, i)) in let c = read_n () in
          out_opt out_change (FixBuilders.process_change cjs l c)
-  | 9 -> let cjs = read_bool () in let name = read_str () in let l = read_opt read_n in let c = read_n () in
+  | 9 -> let cjs = read_bool () in let name = read_str () in let l = read_opt (fun () -> let p = read_n () in let i = read_bool () in (p, i)) in let c = read_n () in
          let s = read_n () in let e = read_n () in
          out_opt (out_opt out_change) (FixBuilders.node_global_change cjs name l c s e)
   | 10 -> let k = read_n () in let spans = read_list (fun () -> read_opt read_rng) in
@@ -86,6 +86,7 @@ let run_pred () =
     | 5 -> FixBuilders.import_line_ok FixBuilders.NlTrailing s
     | 6 -> FixBuilders.import_line_ok FixBuilders.NlNone s
     | 7 -> FixBuilders.braces_balanced s
+    | 8 -> FixBuilders.import_line_ok FixBuilders.NlInline s
     | _ -> failwith "pred tag")
 
 let () = main [("prefer_ascii", run_prefer_ascii); ("irregular", run_irregular); ("offsets", run_offsets);
